@@ -1,2 +1,88 @@
-/-! Stub driver: the model driver for this property is not built yet. -/
-def main : IO Unit := IO.println "unimplemented"
+import JoblibModel.Tracker
+import JoblibModel.IOUtil
+/-! Driver for C20 (model of `resource_tracker.main`). One request per line:
+
+* `RESET`                 → `reset`            fresh registry (`registry = {rtype: {} …}`)
+* `T`                     → `rtypes folder file semlock`   (`_CLEANUP_FUNCS.keys()` as the model has it)
+* `L x<hex>`              → actions of `step` on that raw line (bytes in hex, '\n' included when it was there)
+* `EOF`                   → actions of `finish` on the current registry (registry kept)
+* `Q <rtype> x<hexname>`  → `count <c> <a>`: `c` = count stored in the registry (0 = absent), `a` = `absCount`
+                            of the history since `RESET`
+Actions: `cleanup <rtype> x<hexname>`, `report <ExceptionClass>`, `leak <rtype> <n>`, joined by ` ; `; none: `-`.
+Anything else → `bad-op`. -/
+open JoblibModel JoblibModel.Tracker JoblibModel.IOUtil
+
+def nibble? (c : Char) : Option Nat :=
+  if '0' ≤ c ∧ c ≤ '9' then some (c.toNat - '0'.toNat)
+  else if 'a' ≤ c ∧ c ≤ 'f' then some (c.toNat - 'a'.toNat + 10)
+  else none
+
+def hexBytes? : List Char → Option (List Nat)
+  | [] => some []
+  | a :: b :: r => do
+    let x ← nibble? a
+    let y ← nibble? b
+    let rest ← hexBytes? r
+    pure ((16 * x + y) :: rest)
+  | _ => none
+
+/-- `x<hex>` → bytes. -/
+def unhex? (s : String) : Option (List Nat) :=
+  match s.toList with
+  | 'x' :: r => hexBytes? r
+  | _ => none
+
+def hexDigit (n : Nat) : Char := if n < 10 then Char.ofNat (48 + n) else Char.ofNat (87 + n)
+
+def hex (l : List Nat) : String :=
+  String.ofList ('x' :: l.flatMap (fun b => [hexDigit (b / 16 % 16), hexDigit (b % 16)]))
+
+def rtypeName : RType → String
+  | .folder => "folder"
+  | .file => "file"
+  | .semlock => "semlock"
+
+def rtype? (s : String) : Option RType :=
+  if s = "folder" then some .folder else if s = "file" then some .file
+  else if s = "semlock" then some .semlock else none
+
+def errName : ErrKind → String
+  | .unicodeDecodeError => "UnicodeDecodeError"
+  | .valueError => "ValueError"
+  | .runtimeError => "RuntimeError"
+  | .keyError => "KeyError"
+
+def showAction : Action → String
+  | .cleanup rt n => s!"cleanup {rtypeName rt} {hex n}"
+  | .report e => s!"report {errName e}"
+  | .leakWarning rt n => s!"leak {rtypeName rt} {n}"
+
+def showActions (l : List Action) : String :=
+  if l.isEmpty then "-" else " ; ".intercalate (l.map showAction)
+
+structure St where
+  registry : Registry
+  history : List Line   -- most recent first
+
+def handle (st : St) (line : String) : St × String :=
+  match tokens line with
+  | ["RESET"] => (⟨Registry.empty, []⟩, "reset")
+  | ["T"] => (st, "rtypes " ++ joinSp (rtypes.map rtypeName))
+  | ["EOF"] => (st, showActions (finish st.registry))
+  | ["L", h] =>
+    match unhex? h with
+    | some (b :: bs) =>
+      let r := step st.registry (b :: bs)
+      (⟨r.1, (b :: bs) :: st.history⟩, showActions r.2)
+    | _ => (st, "bad-op")
+  | ["Q", t, h] =>
+    match rtype? t, unhex? h with
+    | some rt, some name =>
+      let c := match lookup (st.registry.get rt) name with
+        | none => (0 : Int)
+        | some c => c
+      (st, s!"count {c} {absCount rt name st.history.reverse}")
+    | _, _ => (st, "bad-op")
+  | _ => (st, "bad-op")
+
+def main : IO Unit := stateLoop (⟨Registry.empty, []⟩ : St) handle
